@@ -313,6 +313,16 @@ def run(R, P="C09"):
         okb = bc is not None and bc[0] == "class" and bc[1].find_method("asynq") is not None
         R.check(okb, P + ".BINDERS", cq + ":binder_cls", R.site(cls.module, cls.node),
                 "%s binds methods with a binder that offers .asynq" % cls.name, "%s has .asynq but its binder class does not: bound methods lose .asynq" % cls.name)
+        # a binder whose synchronous __call__ does not pass the instance on is only right for a decorator that binds the
+        # instance itself when it is looked up (a __get__ of its own, as the async/sync pair has)
+        if bc is not None and bc[0] == "class":
+            bcall = bc[1].find_method("__call__")
+            if bcall is not None:
+                passes = any("self.instance" in q.src(c_) for c_ in q.calls(bcall.node))
+                R.check(passes or cls.find_method("__get__") is not None, P + ".BINDERS", cq + ":binder-call", R.site(cls.module, cls.node),
+                        "the synchronous call of a bound %s receives the instance (from the binder or from the decorator's own __get__)" % cls.name,
+                        "%s uses %s, whose __call__ does not pass the instance on, but does not bind it in a __get__ of its own either: "
+                        "obj.method(x) calls the synchronous function without self" % (cls.name, bc[1].name))
         for extra in ("asyncio", "dirty"):
             if cls.find_method(extra) is not None and extra in cls.methods:
                 okx = bc is not None and bc[0] == "class" and bc[1].find_method(extra) is not None
